@@ -74,31 +74,47 @@ theorem documented_iff (kw : DecKwIn) :
     kw.documented = true ↔ kw.bogus = false ∧ kw.resolve.ftype ≠ .bad := by
   simp [DecKwIn.documented]
 
-theorem sciDecimate_ok (x : Term) (q : Nat) (kw : DecKwIn) (h : kw.documented = true) :
-    sciDecimate x q kw = .ok (.dec q kw.resolve x) := by
-  obtain ⟨h1, h2⟩ := (documented_iff kw).mp h
-  simp [sciDecimate, h1, h2]
+theorem decOk_iff (q : Nat) (kw : DecKwIn) :
+    decOk q kw = true ↔ kw.bogus = false ∧ kw.resolve.ftype ≠ .bad ∧ q ≠ 0 ∧ ¬ (q = 1 ∧ kw.resolve.ftype = .fir) := by
+  rw [decOk, Bool.and_eq_true, documented_iff, decQOk]
+  cases hft : kw.resolve.ftype <;> simp <;> omega
 
-theorem sciDecimate_err (x : Term) (q : Nat) (kw : DecKwIn) (h : kw.documented = false) :
+theorem decOk_of_documented (q : Nat) (kw : DecKwIn) (h : kw.documented = true) (hq : 2 ≤ q) :
+    decOk q kw = true := by
+  simp [decOk, decQOk, h, hq]
+
+theorem documented_of_decOk (q : Nat) (kw : DecKwIn) (h : decOk q kw = true) : kw.documented = true := by
+  simp only [decOk, Bool.and_eq_true] at h; exact h.1
+
+theorem sciDecimate_ok (x : Term) (q : Nat) (kw : DecKwIn) (h : decOk q kw = true) :
+    sciDecimate x q kw = .ok (.dec q kw.resolve x) := by
+  obtain ⟨h1, h2, h3, h4⟩ := (decOk_iff q kw).mp h
+  simp [sciDecimate, h1, h2, h3, h4]
+
+theorem sciDecimate_err (x : Term) (q : Nat) (kw : DecKwIn) (h : decOk q kw = false) :
     ∃ e, sciDecimate x q kw = .error e := by
   unfold sciDecimate
   by_cases h1 : kw.bogus = true
   · exact ⟨.typeError, by simp [h1]⟩
   · by_cases h2 : kw.resolve.ftype = .bad
     · exact ⟨.valueError, by simp [h1, h2]⟩
-    · exfalso
-      have : kw.documented = true := (documented_iff kw).mpr ⟨by simpa using h1, h2⟩
-      rw [h] at this; cases this
+    · by_cases h3 : q = 0
+      · exact ⟨.zeroDivisionError, by simp [h1, h2, h3]⟩
+      · by_cases h4 : q = 1 ∧ kw.resolve.ftype = .fir
+        · exact ⟨.valueError, by simp [h1, h4]⟩
+        · exfalso
+          have : decOk q kw = true := (decOk_iff q kw).mpr ⟨by simpa using h1, h2, h3, h4⟩
+          rw [h] at this; cases this
 
 theorem helperDecimate_ok (n0 : Nat → Nat) (x : Term) (fs : Rat) (q : Nat) (kw : DecKwIn)
-    (h : kw.documented = true) :
+    (h : decOk q kw = true) :
     helperDecimate n0 x fs q kw =
       .ok (.dec q kw.resolve x, fs / (q : Rat), 1 / (fs / (q : Rat)), (Term.dec q kw.resolve x).len n0,
            1 / (fs / (q : Rat)) / (q : Rat) * (((Term.dec q kw.resolve x).len n0 : Nat) : Rat)) := by
   simp [helperDecimate, sciDecimate_ok x q kw h, bind, Except.bind, pure, Except.pure]
 
 theorem helperDecimate_err (n0 : Nat → Nat) (x : Term) (fs : Rat) (q : Nat) (kw : DecKwIn)
-    (h : kw.documented = false) : ∃ e, helperDecimate n0 x fs q kw = .error e := by
+    (h : decOk q kw = false) : ∃ e, helperDecimate n0 x fs q kw = .error e := by
   obtain ⟨e, he⟩ := sciDecimate_err x q kw h
   exact ⟨e, by simp [helperDecimate, he, bind, Except.bind]⟩
 
@@ -149,19 +165,19 @@ theorem documented_axis (kw : DecKwIn) (b : Bool) :
     ({ kw with axis0 := b } : DecKwIn).documented = kw.documented := rfl
 
 theorem sStep_decimate_ok (v : Variant) (c : SCfg) (s : SState) (q : Nat) (kw : DecKwIn)
-    (h : kw.documented = true) :
+    (h : decOk q kw = true) :
     sStep v c s (.decimate q kw) = .ok
       { s with data := .dec q kw.resolve s.data, fs := s.fs / (q : Rat), dt := 1 / (s.fs / (q : Rat)),
                Ndat := c.len (.dec q kw.resolve s.data),
                T := if v.helperTS then 1 / (s.fs / (q : Rat)) / (q : Rat) * ((c.len (.dec q kw.resolve s.data) : Nat) : Rat)
                     else 1 / (s.fs / (q : Rat)) * ((c.len (.dec q kw.resolve s.data) : Nat) : Rat) } := by
-  have h' : ({ kw with axis0 := true } : DecKwIn).documented = true := h
+  have h' : decOk q ({ kw with axis0 := true } : DecKwIn) = true := h
   simp only [sStep, mergeKw_single, bind, Except.bind, helperDecimate_ok _ _ _ _ _ h', pure, Except.pure]
   rfl
 
 theorem sStep_decimate_err (v : Variant) (c : SCfg) (s : SState) (q : Nat) (kw : DecKwIn)
-    (h : kw.documented = false) : ∃ e, sStep v c s (.decimate q kw) = .error e := by
-  have h' : ({ kw with axis0 := true } : DecKwIn).documented = false := h
+    (h : decOk q kw = false) : ∃ e, sStep v c s (.decimate q kw) = .error e := by
+  have h' : decOk q ({ kw with axis0 := true } : DecKwIn) = false := h
   obtain ⟨e, he⟩ := helperDecimate_err (fun _ => c.n0) s.data s.fs q _ h'
   exact ⟨e, by simp only [sStep, mergeKw_single, bind, Except.bind, he]⟩
 
@@ -204,7 +220,7 @@ theorem sStep_inv (v : Variant) (c : SCfg) (s : SState) (σ : Spec) (qs : List N
   obtain ⟨ht, hfs, hfsq, hdt, hnd, hdur, hid, hif⟩ := h
   cases op with
   | decimate q kw =>
-    by_cases hk : kw.documented = true
+    by_cases hk : decOk q kw = true
     · simp only [sStep', sStep_decimate_ok v c s q kw hk, specStep, Op.accepted, hk, if_true, qsStep, ht,
         List.map_cons, List.map_nil]
       refine ⟨rfl, by simp [hfs], ?_, rfl, rfl, ?_, hid, hif⟩
@@ -213,7 +229,7 @@ theorem sStep_inv (v : Variant) (c : SCfg) (s : SState) (σ : Spec) (qs : List N
         by_cases hv : v.helperTS = true
         · simp only [hv, if_true]; exact helperT_law _ _ _
         · simp [hv, mul_comm]
-    · have hk' : kw.documented = false := by simpa using hk
+    · have hk' : decOk q kw = false := by simpa using hk
       obtain ⟨e, he⟩ := sStep_decimate_err v c s q kw hk'
       simp only [sStep', he, specStep, Op.accepted, hk', qsStep]
       exact ⟨ht, hfs, hfsq, hdt, hnd, hdur, hid, hif⟩
@@ -260,27 +276,27 @@ theorem multiRepaired_iff (v : Variant) :
   simp [Variant.multiRepaired, and_assoc]
 
 theorem mDecimateOne_ok (v : Variant) (hv : v.dupKw = false) (c : MCfg) (fs : Rat) (q : Nat) (kw : DecKwIn)
-    (data : Term) (h : kw.documented = true) :
+    (data : Term) (h : decOk q kw = true) :
     mDecimateOne v c fs q kw data =
       .ok (.dec q kw.resolve data, fs / (q : Rat), 1 / (fs / (q : Rat)), (Term.dec q kw.resolve data).len c.n0f,
            1 / (fs / (q : Rat)) / (q : Rat) * (((Term.dec q kw.resolve data).len c.n0f : Nat) : Rat)) := by
   obtain ⟨k, hk, hr, hb⟩ := mDecimateKw_pop v hv kw
-  have hd : k.documented = true := by
-    have : k.documented = kw.documented := by simp [DecKwIn.documented, hr, hb]
+  have hd : decOk q k = true := by
+    have : decOk q k = decOk q kw := by simp [decOk, decQOk, DecKwIn.documented, hr, hb]
     rw [this, h]
   simp only [mDecimateOne, hk, bind, Except.bind, helperDecimate_ok _ _ _ _ _ hd, hr]
 
 theorem mDecimateOne_err (v : Variant) (hv : v.dupKw = false) (c : MCfg) (fs : Rat) (q : Nat) (kw : DecKwIn)
-    (data : Term) (h : kw.documented = false) : ∃ e, mDecimateOne v c fs q kw data = .error e := by
+    (data : Term) (h : decOk q kw = false) : ∃ e, mDecimateOne v c fs q kw data = .error e := by
   obtain ⟨k, hk, hr, hb⟩ := mDecimateKw_pop v hv kw
-  have hd : k.documented = false := by
-    have : k.documented = kw.documented := by simp [DecKwIn.documented, hr, hb]
+  have hd : decOk q k = false := by
+    have : decOk q k = decOk q kw := by simp [decOk, decQOk, DecKwIn.documented, hr, hb]
     rw [this, h]
   obtain ⟨e, he⟩ := helperDecimate_err c.n0f data fs q k hd
   exact ⟨e, by simp only [mDecimateOne, hk, bind, Except.bind, he]⟩
 
 theorem mStep_decimate_ok (v : Variant) (hv : v.multiRepaired = true) (c : MCfg) (s : MState) (q : Nat)
-    (kw : DecKwIn) (h : kw.documented = true) :
+    (kw : DecKwIn) (h : decOk q kw = true) :
     mStep v c s (.decimate q kw) = .ok
       { s with datasets := s.datasets.map (Term.dec q kw.resolve),
                data := preMultisetup c.nchf (s.datasets.map (Term.dec q kw.resolve)) s.refInd,
@@ -293,7 +309,7 @@ theorem mStep_decimate_ok (v : Variant) (hv : v.multiRepaired = true) (c : MCfg)
   simp [bind, Except.bind, pure, Except.pure, List.map_map, Function.comp_def, h1, h2]
 
 theorem mStep_decimate_err (v : Variant) (hv : v.multiRepaired = true) (c : MCfg) (s : MState) (q : Nat)
-    (kw : DecKwIn) (h : kw.documented = false) (hne : s.datasets ≠ []) :
+    (kw : DecKwIn) (h : decOk q kw = false) (hne : s.datasets ≠ []) :
     ∃ e, mStep v c s (.decimate q kw) = .error e := by
   obtain ⟨_, _, _, h4⟩ := (multiRepaired_iff v).mp hv
   obtain ⟨d, hd⟩ := List.exists_mem_of_ne_nil _ hne
@@ -391,13 +407,13 @@ theorem mStep_inv (v : Variant) (hv : v.multiRepaired = true) (c : MCfg) (hc : c
     intro h0; rw [hds] at h0; rw [h0] at hlen; exact hc (List.length_eq_zero_iff.mp hlen.symm)
   cases op with
   | decimate q kw =>
-    by_cases hk : kw.documented = true
+    by_cases hk : decOk q kw = true
     · simp only [mStep', mStep_decimate_ok v hv c s q kw hk, specStep, Op.accepted, hk, if_true, qsStep]
       refine ⟨by simp [hds], by simp [hds, hri], by simpa using hlen, by simp [hfs], ?_, rfl, ?_, ?_, hri, hif, hiri, hids⟩
       · simp only []; rw [hfsq, div_prod_step]
       · simp [hds, List.map_map, Function.comp_def]
       · simp [hds, List.map_map, Function.comp_def]
-    · have hk' : kw.documented = false := by simpa using hk
+    · have hk' : decOk q kw = false := by simpa using hk
       obtain ⟨e, he⟩ := mStep_decimate_err v hv c s q kw hk' hne
       simp only [mStep', he, specStep, Op.accepted, hk', qsStep]
       exact ⟨hds, hdata, hlen, hfs, hfsq, hdt, hnd, hdur, hri, hif, hiri, hids⟩
@@ -475,5 +491,79 @@ theorem sRun_snoc (v : Variant) (c : SCfg) (ops : List Op) (op : Op) :
 theorem mRun_snoc (v : Variant) (c : MCfg) (ops : List Op) (op : Op) :
     mRun v c (ops ++ [op]) = mStep' v c (mRun v c ops) op := by
   simp [mRun, List.foldl_append]
+
+end PV.Prep
+
+namespace PV.Prep
+
+/-! ## `pre_multisetup` with its exceptions -/
+
+
+theorem removeRefs_ok_eq (mov : List Nat) (r : List Nat) (m : List Nat) (h : removeRefs mov r = .ok m) :
+    m = r.foldl (fun l x => l.erase x) mov := by
+  induction r generalizing mov with
+  | nil => simp only [removeRefs, Except.ok.injEq] at h; simpa using h.symm
+  | cons x r ih =>
+    simp only [removeRefs] at h
+    by_cases hx : x ∈ mov
+    · rw [if_pos hx] at h; rw [List.foldl_cons]; exact ih _ h
+    · rw [if_neg hx] at h; cases h
+
+/-- the removals succeed exactly for a duplicate-free list of entries of `mov`. -/
+theorem removeRefs_ok_iff (mov : List Nat) (hm : mov.Nodup) (r : List Nat) :
+    (∃ m, removeRefs mov r = .ok m) ↔ r.Nodup ∧ ∀ x ∈ r, x ∈ mov := by
+  induction r generalizing mov with
+  | nil => simp [removeRefs]
+  | cons x r ih =>
+    simp only [removeRefs]
+    by_cases hx : x ∈ mov
+    · rw [if_pos hx, ih _ (hm.erase x), List.nodup_cons]
+      constructor
+      · rintro ⟨hn, hall⟩
+        refine ⟨⟨fun hxr => ?_, hn⟩, ?_⟩
+        · exact ((hm.mem_erase_iff).mp (hall x hxr)).1 rfl
+        · intro y hy
+          rcases List.mem_cons.mp hy with rfl | hy
+          · exact hx
+          · exact ((hm.mem_erase_iff).mp (hall y hy)).2
+      · rintro ⟨⟨hxr, hn⟩, hall⟩
+        refine ⟨hn, fun y hy => (hm.mem_erase_iff).mpr ⟨?_, hall y (List.mem_cons_of_mem _ hy)⟩⟩
+        rintro rfl; exact hxr hy
+    · rw [if_neg hx]
+      constructor
+      · rintro ⟨m, hm'⟩; cases hm'
+      · rintro ⟨_, hall⟩; exact absurd (hall x (List.mem_cons_self ..)) hx
+
+/-- when the constructor's `pre_multisetup` does not raise and there is one reference list per dataset, its result
+    is the total `preMultisetup` the state machines (and all C14 theorems) use. -/
+theorem preMultisetupChecked_eq (nch : Nat → Nat) (ds : List Term) (rs : List (List Nat)) (Y : List Split)
+    (h : preMultisetupChecked nch ds rs = .ok Y) (hl : rs.length = ds.length) : Y = preMultisetup nch ds rs := by
+  induction ds generalizing rs Y with
+  | nil =>
+    cases rs with
+    | nil => simp only [preMultisetupChecked, Except.ok.injEq] at h; subst h; rfl
+    | cons r rs => simp at hl
+  | cons y ys ih =>
+    cases rs with
+    | nil => simp at hl
+    | cons r rs =>
+      simp only [preMultisetupChecked, bind, Except.bind] at h
+      cases hr : removeRefs (List.range (y.ncols nch)) r with
+      | error e => rw [hr] at h; cases h
+      | ok mov =>
+        rw [hr] at h
+        simp only at h
+        by_cases hc : r = [] ∨ mov = []
+        · rw [if_pos hc] at h; cases h
+        · rw [if_neg hc] at h
+          cases hrest : preMultisetupChecked nch ys rs with
+          | error e => rw [hrest] at h; cases h
+          | ok rest =>
+            rw [hrest] at h
+            simp only [pure, Except.pure, Except.ok.injEq] at h
+            subst h
+            have := ih rs rest hrest (by simpa using hl)
+            rw [this, removeRefs_ok_eq _ _ _ hr]
+            rfl
 
 end PV.Prep
